@@ -810,6 +810,16 @@ func ruleGates(c *Ctx) {
 			}
 		}
 	}
+	// a sink that was moved into a helper which did not exist on the reference tree (sendCall split off call):
+	// the path to it starts in the functions the helper was extracted from
+	for f := range roots {
+		if !p.onReferenceTree(f) {
+			delete(roots, f)
+			for _, r := range p.entryRoots(f, p.onReferenceTree) {
+				roots[r] = true
+			}
+		}
+	}
 	subPtr := types.NewPointer(p.Named("server.Subscription"))
 	var accessPtr types.Type
 	if an := p.Named("rescache.Access"); an != nil {
